@@ -25,7 +25,7 @@ fn seed(server: &str) -> u8 {
 
 fn shape_type(shape: &str) -> &'static str {
     match shape {
-        "join" | "invite" | "invite3p" | "rjoin" | "join3p" | "leave3ps" | "ban3pe" => "m.room.member",
+        "join" | "invite" | "invite3p" | "rjoin" | "join3p" | "leave3ps" | "ban3pe" | "leavej" => "m.room.member",
         "create" => "m.room.create",
         "pl" => "m.room.power_levels",
         "jr" => "m.room.join_rules",
@@ -56,7 +56,7 @@ fn top_val(key: &str, bit: u64, shape: &str) -> Value {
 
 fn content_val(key: &str, bit: u64, shape: &str) -> Value {
     match key {
-        "membership" => json!(match shape { "join" | "rjoin" | "join3p" => "join", "leave3ps" => "leave", "ban3pe" => "ban", _ => "invite" }),
+        "membership" => json!(match shape { "join" | "rjoin" | "join3p" => "join", "leave3ps" | "leavej" => "leave", "ban3pe" => "ban", _ => "invite" }),
         "join_authorised_via_users_server" => json!("@auth:c.example"),
         "redacts" => json!(format!("$cred{bit}:a.example")),
         "users" | "events" | "notifications" => json!({"@u:a.example": 50 + bit}),
